@@ -5,4 +5,10 @@ import (
 	"verifharness/pipeline"
 )
 
-func main() { emit.Main("C10", pipeline.RunFor("C10")) }
+func main() {
+	// the profile runs in a worker process (a crash of the pipeline becomes a finding)
+	if pipeline.ChildMain() {
+		return
+	}
+	emit.Main("C10", pipeline.Supervised("C10"))
+}
